@@ -93,15 +93,22 @@ def hashjoin_traces(events, failed_stmts):
     return [l for blk in blocks for l in blk]
 
 
-def generic_primitive_lines(evs):
-    """All primitive events keyed by object (for the generic waker/count discipline)."""
-    objs = {}
+def generic_primitive_lines(case_traces):
+    """TracePrims.tla lines: all primitive events of several vdriver cases, objects numbered per case
+    (an object address is only meaningful within one statement: a Begin line resets the model)."""
     out = []
-    for e in evs:
-        if e["ev"] in ("Store", "WakeAll", "Wake", "CountSet", "CountDec") and "obj" in e:
-            o = objs.setdefault(e["obj"], len(objs) + 1)
-            out.append({"ev": e["ev"], "o": o, "ps": e.get("ps", []), "n": e.get("n", 0)})
-    return out, len(objs)
+    no = 0
+    for events in case_traces:
+        objs = {}
+        out.append({"ev": "Begin", "o": 0, "ps": [], "n": 0, "no": 0})
+        for stmt, e in stmt_of_events(events):
+            if e["ev"] in ("Store", "WakeAll", "Wake", "CountSet", "CountDec", "WakersInit") and "obj" in e:
+                o = objs.setdefault(e["obj"], len(objs) + 1)
+                no = max(no, o)
+                out.append({"ev": e["ev"], "o": o, "ps": [] if e["ev"] == "WakersInit" else e.get("ps", []), "n": e.get("n", 0), "no": 0})
+    if out:
+        out[0] = dict(out[0], no=no)
+    return out
 
 
 def validate(rep, module, lines, name, label):
